@@ -89,7 +89,16 @@ fn universe(depths: u8) -> Vec<Query> {
 }
 
 fn judge(seq: &[Query], use_value: bool, a: &mut Acc, exhaustive: bool) {
-    let (viol, nt) = run_sequence(seq, use_value);
+    let (viol, nt) = match std::panic::catch_unwind(|| run_sequence(seq, use_value)) {
+        Ok(r) => r,
+        Err(_) => {
+            let p = crate::runner::take_panics();
+            match p.iter().find(|x| x.in_library()) {
+                Some(p) => (Some(("panic", format!("panic inside the library: {} at {}:{}", p.msg, p.file, p.line))), false),
+                None => { a.harness_error(format!("panic outside the library while running a query sequence: {:?}", p.first().map(|x| (&x.msg, &x.file, x.line))), J::Null); (None, false) }
+            }
+        }
+    };
     a.evaluations += 1;
     if nt {
         if exhaustive { a.nt_extra += 1; } else { a.nontrivial.insert(hash_of(&(seq, use_value))); }
